@@ -78,7 +78,7 @@ func (c *Conn) PrepareContext(ctx context.Context, query string) (driver.Stmt, e
 			return nil, err
 		}
 
-		return &Stmt{stmt: stmt, query: query, res: c.res, txCtx: c.txCtx}, nil
+		return &Stmt{conn: c, stmt: stmt, query: query, res: c.res, txCtx: c.txCtx}, nil
 	}
 
 	s, err := conn.PrepareContext(ctx, query)
